@@ -484,7 +484,7 @@ func (h *hist) pickSpelledTarget(u int) (int, string, string, string) {
 			if !h.m.allow(x, "pull", h.sh.ns+d+"/any/thing") {
 				continue
 			}
-			for _, p := range h.sh.live {
+			for _, p := range h.sh.plainLive() {
 				if !h.m.allow(x, "pull", p) {
 					cands = append(cands, cand{x, p, h.sh.ns + d})
 				}
@@ -495,7 +495,7 @@ func (h *hist) pickSpelledTarget(u int) (int, string, string, string) {
 		c := rapid.SampledFrom(cands).Draw(h.t, "detourRight")
 		return c.u, c.p, c.d, "right-covers-detour-only"
 	}
-	return u, h.pickPath(u, "pull", h.sh.live, "path"), h.sh.ns + rapid.SampledFrom(detourDirs).Draw(h.t, "detour"), "other"
+	return u, h.pickPath(u, "pull", h.sh.plainLive(), "path"), h.sh.ns + rapid.SampledFrom(detourDirs).Draw(h.t, "detour"), "other"
 }
 
 // drawSpelling writes path as "{detour}/../..{path}" with optional "." and empty
